@@ -231,7 +231,9 @@ def find_item(toks, lo, hi, step):
                 break
             header = norm(toks[i:j])
             ok = False
-            if kw == "impl":
+            if kw == "macro_rules":
+                ok = (i + 2 < hi and toks[i + 1].t == "!" and f"macro_rules ! {toks[i + 2].t}" == want)
+            elif kw == "impl":
                 ok = header == want
             else:
                 # name is the token after kw; compare "kw name"
@@ -331,13 +333,17 @@ def cfg_feature_edits(toks, off_features, text=None):
     at the end of its `{..}` block when that comes first followed by no `,`."""
     edits = []
     i = 0
-    while i + 7 < len(toks):
-        if (toks[i].t == "#" and toks[i + 1].t == "[" and toks[i + 2].t == "cfg" and toks[i + 3].t == "("
-                and toks[i + 4].t == "feature" and toks[i + 5].t == "=" and toks[i + 6].k == "str"
-                and toks[i + 7].t == ")"):
-            feat = toks[i + 6].t.strip('"')
+    while i + 5 < len(toks):
+        is_feat = (i + 7 < len(toks) and toks[i].t == "#" and toks[i + 1].t == "[" and toks[i + 2].t == "cfg"
+                   and toks[i + 3].t == "(" and toks[i + 4].t == "feature" and toks[i + 5].t == "="
+                   and toks[i + 6].k == "str" and toks[i + 7].t == ")")
+        # `#[cfg(test)]` elements are off in the production build as well
+        is_test = (toks[i].t == "#" and toks[i + 1].t == "[" and toks[i + 2].t == "cfg" and toks[i + 3].t == "("
+                   and toks[i + 4].t == "test" and toks[i + 5].t == ")")
+        if is_feat or is_test:
+            feat = toks[i + 6].t.strip('"') if is_feat else "test"
             close = match_close(toks, i + 1)
-            if feat in off_features:
+            if feat in off_features or is_test:
                 j = close + 1
                 # skip further attributes
                 while j < len(toks) and toks[j].t == "#":
